@@ -92,4 +92,147 @@ def clientEventPaths (hasClientPlugin : Bool) (status : Status) : Paths :=
   { toWire := hasClientPlugin && decide (status = .connected),
     locally := hasClientPlugin && decide (status = .disconnected) }
 
+
+/-! ### the server's buffer of dependent events (`BufferedServerEvents`) -/
+
+/-- does the mode select connected client `c`? -/
+def selects (mode : Mode) (c : Nat) : Bool :=
+  match mode with
+  | .broadcast => true
+  | .except x => x ≠ some c
+  | .direct x => x = some c
+
+/-- a buffered event: `id` stands for the serialized payload -/
+structure Ev where
+  id : Nat
+  chan : Nat
+  mode : Mode
+deriving Repr, DecidableEq
+
+/-- `BufferedServerEventSet` -/
+structure BufSet where
+  events : List Ev := []
+  excluded : List Nat := []
+deriving Repr, DecidableEq
+
+/-- a message handed to `RepliconServer::send` -/
+structure Out where
+  client : Nat
+  chan : Nat
+  /-- the tick written in front of the payload; `none` for independent events -/
+  stamp : Option Nat
+  id : Nat
+deriving Repr, DecidableEq
+
+/-- `BufferedServerEvent::send` for every client the `match event.mode` arm of `send_all` reaches -/
+def sendEvent (peers : List Peer) (excluded : List Nat) (e : Ev) : List Out :=
+  (peers.filter fun p => !excluded.contains p.id && selects e.mode p.id && p.authorized).map
+    fun p => { client := p.id, chan := e.chan, stamp := some p.updateTick, id := e.id }
+
+def sendSet (peers : List Peer) (s : BufSet) : List Out :=
+  s.events.flatMap (sendEvent peers s.excluded)
+
+/-- `send_independent_event` -/
+def sendIndependent (peers : List Peer) (e : Ev) : List Out :=
+  (peers.filter fun p => selects e.mode p.id).map
+    fun p => { client := p.id, chan := e.chan, stamp := none, id := e.id }
+
+/-- `BufferedServerEvents::buffer` (the `cache` of spare sets is an allocation detail) -/
+structure SrvEv where
+  buffer : List BufSet := []
+deriving Repr, DecidableEq
+
+/-- `start_tick` followed by the `insert`s of one `send_or_buffer` run -/
+def SrvEv.bufferEvents (s : SrvEv) (es : List Ev) : SrvEv :=
+  { buffer := s.buffer ++ [{ events := es }] }
+
+/-- `exclude_client` (called from `handle_connects`) -/
+def SrvEv.exclude (s : SrvEv) (c : Nat) : SrvEv :=
+  { buffer := s.buffer.map fun b => { b with excluded := c :: b.excluded } }
+
+/-- `send_all`: everything buffered, set by set, then the buffer is empty -/
+def SrvEv.sendAll (s : SrvEv) (peers : List Peer) : List Out :=
+  s.buffer.flatMap (sendSet peers)
+
+/-- `clear` (server stop) -/
+def SrvEv.clear (_ : SrvEv) : SrvEv := {}
+
+/-- An event the game emitted since the previous frame: dependent or independent. -/
+structure Emitted where
+  ev : Ev
+  independent : Bool
+deriving Repr, DecidableEq
+
+/-- The three event systems of the server's `PostUpdate`, in their chained order
+(`send_or_buffer`, `send_buffered`, `resend_locally`), for one frame.
+`localOk` is the value of `server_or_singleplayer`.  Returns the new buffer, the messages
+handed to the transport (in order) and the ids re-emitted for the local game logic. -/
+def SrvEv.frame (s : SrvEv) (running ticked localOk : Bool) (emitted : List Emitted) (peers : List Peer) :
+    SrvEv × List Out × List Nat :=
+  let locals := if localOk then (emitted.filter fun e => localDelivery e.ev.mode).map (·.ev.id) else []
+  if !running then (s, [], locals) else
+  let s1 := s.bufferEvents ((emitted.filter fun e => !e.independent).map (·.ev))
+  let indep := (emitted.filter (·.independent)).flatMap fun e => sendIndependent peers e.ev
+  if ticked then ({}, indep ++ s1.sendAll peers, locals) else (s1, indep, locals)
+
+/-! ### events the local game sends towards the server (`Events<E>` + `ClientEventReader`) -/
+
+/-- Bevy's double-buffered `Events<E>` together with replicon's read cursor.  Items are
+`(sequence number, payload id)`; `a` is the older half, dropped by the next `Events::update`. -/
+structure CBuf where
+  a : List (Nat × Nat) := []
+  b : List (Nat × Nat) := []
+  /-- `event_count`: sequence number of the next event -/
+  next : Nat := 0
+  /-- `ClientEventReader`: everything below has been sent to the remote server -/
+  cursor : Nat := 0
+deriving Repr, DecidableEq
+
+def CBuf.emit (q : CBuf) (id : Nat) : CBuf := { q with b := q.b ++ [(q.next, id)], next := q.next + 1 }
+/-- `Events::update` -/
+def CBuf.age (q : CBuf) : CBuf := { q with a := q.b, b := [] }
+def CBuf.items (q : CBuf) : List (Nat × Nat) := q.a ++ q.b
+/-- `Events::drain` -/
+def CBuf.drain (q : CBuf) : CBuf := { q with a := [], b := [] }
+
+/-- One frame of a client-side app for one client event type.
+* `aged`: did Bevy run `Events::update` in `First` (it does so only after a `FixedUpdate`);
+* `justConnected`: the value of `client_just_connected` (runs `reset`, which drains);
+* `status`: the client's status in `PostUpdate`.
+Returns the new buffer, the events put on the wire and the events re-emitted locally as
+`FromClient { client: SERVER, .. }` (both as `(sequence number, payload)`). -/
+def CBuf.frame (q : CBuf) (aged justConnected : Bool) (status : Status) :
+    CBuf × List (Nat × Nat) × List (Nat × Nat) :=
+  let q := if aged then q.age else q
+  let q := if justConnected then q.drain else q
+  match status with
+  | .connected =>
+    ({ q with cursor := q.next }, q.items.filter fun x => q.cursor ≤ x.1, [])
+  | .disconnected => (q.drain, [], q.items)
+  | .connecting => (q, [], [])
+
+/-- a step of a client-side app's history, for one client event type -/
+inductive CStep where
+  | emit (id : Nat)
+  | frame (aged justConnected : Bool) (status : Status)
+deriving Repr, DecidableEq
+
+/-- everything put on the wire / re-emitted locally over a history -/
+def CBuf.run (q : CBuf) : List CStep → List (Nat × Nat) × List (Nat × Nat)
+  | [] => ([], [])
+  | .emit id :: rest => (q.emit id).run rest
+  | .frame aged jc st :: rest =>
+    let r := q.frame aged jc st
+    let t := r.1.run rest
+    (r.2.1 ++ t.1, r.2.2 ++ t.2)
+
+/-- what the server-side logic gets for one received message: the payload with the identity the
+transport attached (`ClientEvent::receive_typed`) -/
+def receiveFrom (msgs : List (Nat × Nat)) : List (Nat × Nat) := msgs
+
+/-- `ServerEvent::deserialize` with `ClientReceiveCtx`: every reference must be in the entity map,
+otherwise the event is refused -/
+def resolveRefs (map : List (Nat × Nat)) (refs : List Nat) : Option (List Nat) :=
+  refs.mapM fun r => map.lookup r
+
 end Replicon.Evt
